@@ -241,9 +241,9 @@ func (c *Check) goroutineRules(prop, rel string, fns []string) {
 					why = "a per-launch wg.Add whose argument is not 1"
 				case !instrDominates(a, g):
 					why = "a wg.Add(1) that does not precede its go statement"
-				case a.Block() != g.Block() && (blockReachesAvoid(a.Block(), wait.Block(), g.Block()) || blockReachesAvoid(a.Block(), a.Block(), g.Block())):
+				case a.Block() != g.Block() && (blockReachesAvoid(a.Block(), wait.Block(), g.Block()) || cycleAvoiding(a.Block(), g.Block())):
 					why = "a wg.Add(1) after which the go statement can be skipped"
-				case a.Block() != g.Block() && blockReachesAvoid(g.Block(), g.Block(), a.Block()):
+				case a.Block() != g.Block() && cycleAvoiding(g.Block(), a.Block()):
 					why = "a go statement that can run more than once per wg.Add(1)"
 				}
 			}
@@ -290,12 +290,12 @@ func (c *Check) goroutineRules(prop, rel string, fns []string) {
 					if !ok {
 						continue
 					}
-					rk, _ := rootOf(st.Addr, 0, map[ssa.Value]bool{})
-					switch rk {
-					case rFresh:
-					case rFreeVar:
-						base, loads := addrBase(st.Addr)
-						cell, owner := resolveCell(base)
+					base, loads := addrBase(st.Addr)
+					switch bx := base.(type) {
+					case *ssa.Parameter:
+						nw++ // through its own argument; checked at the launch below
+					case *ssa.FreeVar:
+						cell, owner := resolveCell(bx)
 						switch {
 						case cell == nil || owner != f:
 							bad = "writes through a captured pointer that is not a simple variable"
@@ -315,10 +315,10 @@ func (c *Check) goroutineRules(prop, rel string, fns []string) {
 								bad = "writes through the captured pointer " + cell.Comment + ", which is not this iteration's own &sources[i]"
 							}
 						}
-					case rParam:
-						nw++ // through its own argument; checked at the launch below
 					default:
-						bad = "writes to " + describeValue(st.Addr) + " (" + rk.String() + ")"
+						if rk, _ := rootOf(st.Addr, 0, map[ssa.Value]bool{}); rk != rFresh {
+							bad = "writes to " + describeValue(st.Addr) + " (" + rk.String() + ")"
+						}
 					}
 				}
 			}
@@ -433,7 +433,7 @@ func addrBase(a ssa.Value) (ssa.Value, int) {
 // perIteration: the variable is declared inside the loop body that contains the go
 // statement g (a new cell on every iteration) and before it.
 func perIteration(cell *ssa.Alloc, g *ssa.Go) bool {
-	return cell.Block() != nil && loopDepth(cell.Block()) > 0 && instrDominates(cell, g) && !blockReachesAvoid(g.Block(), g.Block(), cell.Block())
+	return cell.Block() != nil && loopDepth(cell.Block()) > 0 && instrDominates(cell, g) && (cell.Block() == g.Block() || !cycleAvoiding(g.Block(), cell.Block()))
 }
 
 // holdsOwnSlot: the only value ever stored in the variable is &xs[i] for the index i
@@ -984,4 +984,21 @@ func (c *Check) chunkTiling() {
 	} else {
 		c.bad("C16-R6", "tiling:cond", p.relFile(f.Pos()), "chunk loop condition is not start < len(sources): the last partial chunk could be skipped")
 	}
+}
+
+// cycleAvoiding: b can be executed again (a path from one of its successors back to b)
+// without passing through avoid.
+func cycleAvoiding(b, avoid *ssa.BasicBlock) bool {
+	if b == avoid {
+		return false
+	}
+	for _, s := range b.Succs {
+		if s == avoid {
+			continue
+		}
+		if s == b || blockReachesAvoid(s, b, avoid) {
+			return true
+		}
+	}
+	return false
 }
